@@ -115,8 +115,16 @@ def render_py(rng, spec, out: Lines):
 
 
 def render_ts(rng, spec, out: Lines, js=False):
+    # every way of writing a class is a class: plain, exported, abstract (ts), named class expression
+    form = rng.choice(["plain", "plain", "export", "expr"] + ([] if js else ["abstract", "export-abstract"]))
+    if not js and form in ("plain", "abstract") and rng.random() < 0.35:
+        # decorators sit above the header: they are neither the header line nor lines "from its header to its end"
+        for d in rng.sample(["@sealed", "@registered({ scope: \"app\" })", "@tracked"], rng.randint(1, 2)):
+            out.code(d)
     start = len(out.lines)
-    out.code("class %s {" % spec["name"])
+    head = {"plain": "class %s {", "export": "export class %s {", "abstract": "abstract class %s {", "export-abstract": "export abstract class %s {",
+            "expr": "const %s = class %s {".replace("%s", "%(n)s")}[form]
+    out.code(head % {"n": spec["name"]} if form == "expr" else head % spec["name"])
     header_line = len(out.lines)
     ty = (lambda s: "") if js else (lambda s: s)
     n = 0
@@ -154,10 +162,10 @@ def render_ts(rng, spec, out: Lines, js=False):
             out.code("  }")
         else:
             out.code("  tail_%d = 0;" % n)
-    out.code("}")
+    out.code("};" if form == "expr" else "}")
     loc = sum(1 for k in out.kinds[start:] if k == "code")
     m = sum(1 for k in spec["members"] if k in ("public", "async", "static", "classmethod"))
-    return {"name": spec["name"], "line": header_line, "methods": m, "loc": loc, "keyword": spec["keyword"],
+    return {"name": spec["name"], "line": header_line, "form": form, "methods": m, "loc": loc, "keyword": spec["keyword"],
             "has_noise": any(k != "code" for k in out.kinds[start:]), "span": len(out.lines) - start}
 
 
